@@ -457,7 +457,12 @@ class Oracles:
         if new[rt] is not None and new[st] is not None and new[rt] - new[st] < 0:
             self.ctx.probe('rollup_before_start_clamped')
         if bn < bo:
-            end_earlier = new[et] is not None and (old[et] is None or new[et] < old[et])
+            # "corrects the end to an earlier time": an end before the recorded one, or -- for an attempt that had no
+            # end yet -- an end before the time it had already been billed up to.  A first end at or after the billed
+            # horizon is no such correction (unschedule_job with a NULL rollup used to pass as one)
+            end_earlier = new[et] is not None and (
+                (old[et] is not None and new[et] < old[et])
+                or (old[et] is None and old[rt] is not None and new[et] < old[rt]))
             if not (end_earlier or new[rs] == 'activation_timeout'):
                 self.fail('C03', 'billed_time', 'C03/billed_decreased', f'attempt {key}: billed {bo} -> {bn} '
                           f'(old {old} new {new})')
